@@ -17,6 +17,14 @@
 (*           compiled iff absent                                           *)
 (*   NewProcess(p)   a fresh interpreter: in-process caches are empty      *)
 (*                                                                         *)
+(* A definition file is more than generated C: the wrapper a Load returns  *)
+(* also carries the parameter table (defaults, limits) of the module it    *)
+(* was made from.  Versions 1 and 2 of "py" differ only in a default, so   *)
+(* they generate the same C (PyC) and share a library; what the load       *)
+(* evaluates is the pair (library, table) = last[p].src / last[p].info.    *)
+(* Variant "wrapperMemo" (a failing control) keeps the wrapper per library *)
+(* in the process and so hands out a stale table.                          *)
+(*                                                                         *)
 (* The hash is modelled as injective in the generated source (CRC          *)
 (* collisions are outside the property).  Variant selects the current      *)
 (* design ("ok") or one of several deliberately wrong designs used as      *)
@@ -25,7 +33,7 @@
 EXTENDS Naturals, FiniteSets, Sequences, TLC
 
 CONSTANTS Procs, Versions, Bits, MaxSteps,
-          Variant   \* "ok" | "keyIgnoresInc" | "keyIgnoresBits" | "tmplNeverRefreshed" (failing controls) | "noDepends" (equivalent: included C is read fresh)
+          Variant   \* "ok" | "keyIgnoresInc" | "keyIgnoresBits" | "tmplNeverRefreshed" | "wrapperMemo" (failing controls) | "noDepends" (equivalent: included C is read fresh)
 
 Files == {"py", "inc", "tmpl"}
 
@@ -36,18 +44,22 @@ VARIABLES text,     \* [Files -> Versions]
           means,    \* [dll -> content triple]  what each library on disk computes
           modc,     \* [Procs -> [v, ts] | "none"]  module cache (snapshot of py text, timestamp)
           tmplc,    \* [Procs -> [v, mt] | "none"]  template cache
-          last,     \* [Procs -> "none" | [src, bits]]  what the last Load of p evaluates
+          last,     \* [Procs -> "none" | [src, bits, info]]  what the last Load of p evaluates: library and table
+          wrapc,    \* [Procs -> set of [k, info]]  wrappers kept per library (variant wrapperMemo only)
           just,     \* "none" | [p, b]: the step just taken was Load(p, b)
           steps
-vars == <<text, mtime, clock, dll, means, modc, tmplc, last, just, steps>>
+vars == <<text, mtime, clock, dll, means, modc, tmplc, last, wrapc, just, steps>>
 
 \* sentinels ("nothing cached"): version 0 does not exist
 NoMod == [v |-> 0, ts |-> 0]
 NoTmpl == [v |-> 0, mt |-> 0]
-NoLast == [src |-> [py |-> 0, inc |-> 0, tmpl |-> 0], bits |-> 0]
+NoLast == [src |-> [py |-> 0, inc |-> 0, tmpl |-> 0], bits |-> 0, info |-> 0]
 NoJust == [p |-> "none", b |-> 0]
 Triple(py, inc, tmpl) == [py |-> py, inc |-> inc, tmpl |-> tmpl]
+\* the C generated from version v of the definition: 1 and 2 differ only in a parameter default
+PyC(v) == IF v = 2 THEN 1 ELSE v
 Current == Triple(text["py"], text["inc"], text["tmpl"])
+CurrentSrc == Triple(PyC(text["py"]), text["inc"], text["tmpl"])
 Max(a, b) == IF a >= b THEN a ELSE b
 
 Init ==
@@ -59,6 +71,7 @@ Init ==
     /\ modc = [p \in Procs |-> NoMod]
     /\ tmplc = [p \in Procs |-> NoTmpl]
     /\ last = [p \in Procs |-> NoLast]
+    /\ wrapc = [p \in Procs |-> {}]
     /\ just = NoJust
     /\ steps = 0
 
@@ -70,7 +83,7 @@ Edit(f, v) ==
     /\ clock' = clock + 1
     /\ steps' = steps + 1
     /\ just' = NoJust
-    /\ UNCHANGED <<dll, means, modc, tmplc, last>>
+    /\ UNCHANGED <<dll, means, modc, tmplc, last, wrapc>>
 
 \* custom.need_reload: any dependency newer than the cached timestamp
 NeedReload(p) ==
@@ -85,7 +98,7 @@ TmplAfter(p) == IF tmplc[p] = NoTmpl \/ (Variant # "tmplNeverRefreshed" /\ mtime
                 THEN [v |-> text["tmpl"], mt |-> mtime["tmpl"]]
                 ELSE tmplc[p]
 \* the generated source and the library key derived from it
-SourceOf(p) == Triple(ModAfter(p).v, text["inc"], TmplAfter(p).v)
+SourceOf(p) == Triple(PyC(ModAfter(p).v), text["inc"], TmplAfter(p).v)
 KeyOf(src, b) == [bits |-> IF Variant = "keyIgnoresBits" THEN 0 ELSE b,
                   id |-> IF Variant = "keyIgnoresInc" THEN [src EXCEPT !.inc = 0] ELSE src]
 
@@ -99,7 +112,12 @@ Load(p, b) ==
              THEN UNCHANGED <<dll, means>>              \* cache hit: whatever is on disk is used
              ELSE /\ dll' = dll \cup {k}
                   /\ means' = [x \in DOMAIN means \cup {k} |-> IF x = k THEN [src |-> src, bits |-> b] ELSE means[x]]
-          /\ last' = [last EXCEPT ![p] = IF k \in dll THEN means[k] ELSE [src |-> src, bits |-> b]]
+          /\ LET lib == IF k \in dll THEN means[k] ELSE [src |-> src, bits |-> b]
+                 memo == {x \in wrapc[p] : x.k = k}
+                 info == IF Variant = "wrapperMemo" /\ memo # {} THEN (CHOOSE x \in memo : TRUE).info ELSE ModAfter(p).v
+             IN /\ last' = [last EXCEPT ![p] = [src |-> lib.src, bits |-> lib.bits, info |-> info]]
+                /\ wrapc' = IF Variant = "wrapperMemo" /\ memo = {} THEN [wrapc EXCEPT ![p] = @ \cup {[k |-> k, info |-> info]}]
+                            ELSE wrapc
     /\ just' = [p |-> p, b |-> b]
     /\ steps' = steps + 1
     /\ UNCHANGED <<text, mtime, clock>>
@@ -110,6 +128,7 @@ NewProcess(p) ==
     /\ modc' = [modc EXCEPT ![p] = NoMod]
     /\ tmplc' = [tmplc EXCEPT ![p] = NoTmpl]
     /\ last' = [last EXCEPT ![p] = NoLast]
+    /\ wrapc' = [wrapc EXCEPT ![p] = {}]
     /\ just' = NoJust
     /\ steps' = steps + 1
     /\ UNCHANGED <<text, mtime, clock, dll, means>>
@@ -121,7 +140,7 @@ Spec == Init /\ [][Next]_vars
 
 \* ---- properties (C17)
 \* the next load evaluates the current sources at the requested precision
-Coherent == just # NoJust => last[just.p] = [src |-> Current, bits |-> just.b]
+Coherent == just # NoJust => last[just.p] = [src |-> CurrentSrc, bits |-> just.b, info |-> text["py"]]
 \* two different generated sources or precisions never share a library
 NoSharing == \A k \in dll : KeyOf(means[k].src, means[k].bits) = k
                             /\ \A k2 \in dll : (means[k] = means[k2]) => k = k2
